@@ -209,6 +209,10 @@ def run(tier):
             n_dir += 1
         # ---- 3. corpus calls
         ctraces, nfiles, longlines, nruns = corpus_traces(c, thorough)
+        ltraces, lfiles, llong = longname_traces(c)
+        ctraces += ltraces
+        nfiles += lfiles
+        longlines += llong
         seen = set()
         for tr in ctraces:
             h = hashlib.sha1(json.dumps(tr, sort_keys=True).encode()).hexdigest()
@@ -374,6 +378,65 @@ def mixed_length_traces(c):
         if nfile < 4:
             raise MachineryError("nested line length run recorded %d files" % nfile)
     return out
+
+
+LONG_TYPES = ["int", "long", "float", "double", "bool", "const std::string &", "const char *", "short", "int64_t"]
+
+
+def longname_yaml(nover, lang_opts=""):
+    """A library of long identifiers (each below Fortran's 63 characters): a class method with `nover` overloads
+    (the type-bound `generic ::` statement lists every specific name), default arguments, a function template with
+    four instantiations, fortran_generic entries, an enumeration, all inside a namespace."""
+    meth = "\n".join("    - decl: void assign_element_value_from(int index_of_the_element, %s value_to_assign)" % t
+                     for t in LONG_TYPES[:nover])
+    return ("library: longnames\ncxx_header: longnames.hpp\n%sdeclarations:\n"
+            "- decl: namespace computational_geometry_toolkit\n  declarations:\n"
+            "  - decl: enum BoundaryConditionClassification { DirichletBoundaryConditionKind, NeumannBoundaryConditionKind = 4,"
+            " PeriodicBoundaryConditionKind, ReflectingBoundaryConditionKind }\n"
+            "  - decl: class StructuredMeshContainer\n    declarations:\n"
+            "    - decl: StructuredMeshContainer()\n    - decl: ~StructuredMeshContainer()\n%s\n"
+            "    - decl: int number_of_elements_in_direction(int direction_of_interest = 0, int level_of_refinement = 1,"
+            " bool include_ghost_elements = false)\n"
+            "    - decl: StructuredMeshContainer * refine_every_element_once() +owner(caller)\n"
+            "  - decl: void scale_all_coordinates_by_factor(double scaling_factor_for_coordinates, int *list_of_marked_elements"
+            " +intent(in)+rank(1), int number_of_marked_elements +implied(size(list_of_marked_elements)))\n"
+            "    fortran_generic:\n    - decl: (float scaling_factor_for_coordinates)\n      function_suffix: _single_precision\n"
+            "    - decl: (double scaling_factor_for_coordinates)\n      function_suffix: _double_precision\n"
+            "  - decl: template<typename ValueType> void accumulate_weighted_contribution(ValueType value_to_accumulate,"
+            " double weight_of_the_contribution, const std::string & name_of_the_accumulator)\n"
+            "    cxx_template:\n    - instantiation: <int>\n    - instantiation: <long>\n    - instantiation: <float>\n"
+            "    - instantiation: <double>\n"
+            "  - decl: const std::string & name_of_boundary_condition_classification(BoundaryConditionClassification"
+            " classification_to_describe, int verbosity_of_the_description = 0)\n") % (lang_opts, meth)
+
+
+def longname_traces(c):
+    """write_lines calls and over-long Fortran lines of the long-identifier libraries at default line lengths."""
+    traces, longlines, nfiles = [], [], 0
+    with common.scratch("c13l-") as base:
+        for nover in (2, 5, 9):
+            for tag, opts in (("", ""), ("-cfi", "options: {F_CFI: true}\n")):
+                od = os.path.join(base, "long%d%s" % (nover, tag))
+                os.makedirs(od)
+                yp = os.path.join(od, "longnames.yaml")
+                open(yp, "w").write(longname_yaml(nover, opts))
+                tf = od + ".ndjson"
+                rc, so, se = shroudrun.run(corpus.base_args(od) + [yp], probes=["linewrap"], trace=tf)
+                if rc != 0:
+                    raise MachineryError("long identifier library (%d overloads%s) failed rc=%s\n%s" % (nover, tag, rc, se[-1500:]))
+                for e in shroudrun.read_events(tf):
+                    if e.get("e") == "write_lines" and not e.get("err") and e["cls"] in ("Wrapf", "Wrapc"):
+                        traces.extend(split_call(e))
+                for fn in sorted(os.listdir(od)):
+                    if fn.endswith(".f"):
+                        nfiles += 1
+                        for i, line in enumerate(open(os.path.join(od, fn), errors="replace"), 1):
+                            line = line.rstrip("\n")
+                            if len(line) > 132 and not line.lstrip().startswith("!"):
+                                longlines.append(("long%d%s/%s" % (nover, tag, fn), i, len(line)))
+    if nfiles < 6:
+        raise MachineryError("long identifier libraries wrote %d Fortran files" % nfiles)
+    return traces, nfiles, longlines
 
 
 def corpus_traces(c, thorough):
